@@ -438,7 +438,10 @@ class OracleMixin:
         if task is None or not task.done() or task.cancelled():
             return None
         e = task.exception()
-        return e if e is not None and self.is_injected(e) else None
+        if e is not None and self.is_injected(e):
+            return e
+        # what user code of this task raised, as the user code itself knows it (not as the pool reports it)
+        return t.user_raised
 
     def on_gac_return(self, pr, before, rex=True):
         if not rex:
@@ -521,6 +524,10 @@ class OracleMixin:
                     self.violate("C07.siblings", "a request of a group that was never cancelled did not complete in a run with group cancellations: " + v["msg"])
             if len(self.viol) == n0:
                 self.sit["C07.siblings_ok"] += 1
+        if pr.size_changed:
+            for v in list(self.viol[n0:]):
+                if v["clause"].startswith(("C04.count", "C05.once_in_order")):
+                    self.violate("C15.grow_wakes", "a request waiting for room did not complete in a pool whose size was reassigned (a higher value lets waiting tasks start): " + v["msg"])
         if self.excs:
             for v in list(self.viol[n0:]):
                 c = v["clause"]
